@@ -47,7 +47,7 @@ class TemporalSnapshotsIds(_Read):
             return
         r = outcome[1]
         if r.kind != 'seq' or r.meta.get('elem_kind') != 'int':
-            self.forbid(ctx, 'C04.snapshot_ids.returns_a_list_of_ints', tags=T, note='result kind %s' % r.kind)
+            self.shape(ctx, 'C04.snapshot_ids.returns_a_list_of_ints', tags=T, note='result kind %s' % r.kind)
             return
         i, j, q = c.i, c.j, c.q
         ctx.oblige('C04.snapshot_ids.ascending_duplicate_free', z3.Implies(z3.And(0 <= i, i < j, j < r.n), r.elem(i).z < r.elem(j).z), tags=T)
@@ -82,18 +82,18 @@ class InteractionsPerSnapshots(_Read):
         pre = c.pre
         if not c.tnone:
             if r.kind != 'int':
-                self.forbid(ctx, 'C04.count_per_snapshot.returns_an_integer', tags=T, note='result kind %s' % r.kind)
+                self.shape(ctx, 'C04.count_per_snapshot.returns_an_integer', tags=T, note='result kind %s' % r.kind)
                 return
             ctx.oblige('C04.count_per_snapshot.value', z3.If(pre['SKey'][c.t], KAPPA * r.z == pre['SCnt'][c.t], r.z == 0), tags=T)
         else:
             if r.kind != 'vmap':
-                self.forbid(ctx, 'C04.count_per_snapshot.returns_a_dict', tags=T, note='result kind %s' % r.kind)
+                self.shape(ctx, 'C04.count_per_snapshot.returns_a_dict', tags=T, note='result kind %s' % r.kind)
                 return
             q = c.q
             ctx.oblige('C04.count_per_snapshot.dict_keys_are_snapshot_ids', r.dom(q) == pre['SKey'][q], tags=T)
             v = r.get(q)
             if v.kind != 'int':
-                self.forbid(ctx, 'C04.count_per_snapshot.dict_values_are_integers', tags=T, note='value kind %s' % v.kind)
+                self.shape(ctx, 'C04.count_per_snapshot.dict_values_are_integers', tags=T, note='value kind %s' % v.kind)
                 return
             ctx.oblige('C04.count_per_snapshot.dict_values', z3.Implies(pre['SKey'][q], KAPPA * v.z == pre['SCnt'][q]), tags=T)
         self.unchanged(ctx, c)
